@@ -44,3 +44,29 @@ Definition value_or (eqs : list vcmp) : vcmp := value_or_go eqs false.
 Definition cmp_equal_gen (presence_v0 : bool) (cs : list vcmp) : mcmp := compare (value_and cs) presence_v0.
 Definition cmp_equal := cmp_equal_gen false.
 Definition cmp_equal_v0 := cmp_equal_gen true.
+
+(* ---- combinator TREES: ValueAnd / ValueOr nested to any depth over leaf comparers ----
+   cmp.ValueOr(cmp.TimeValueWithin(d), cmp.ValueAnd(cmp.FloatValueApprox(..), ...)) etc.: a member of a
+   combination may itself be a combination, whose (equal, ok) pair is consumed by the enclosing loop
+   exactly like a leaf's -- in particular ValueAnd answers (true, false) when none of its members
+   applies, and the enclosing loop must look at ok before it looks at equal. *)
+Inductive ctree (L : Type) :=
+| TLeaf (l : L)
+| TAnd (ts : list (ctree L))
+| TOr (ts : list (ctree L)).
+Arguments TLeaf {L} l.
+Arguments TAnd {L} ts.
+Arguments TOr {L} ts.
+
+Fixpoint tree_cmp {L : Type} (f : L -> vcmp) (t : ctree L) : vcmp :=
+  match t with
+  | TLeaf l => f l
+  | TAnd ts => value_and (map (tree_cmp f) ts)
+  | TOr ts => value_or (map (tree_cmp f) ts)
+  end.
+
+Fixpoint tree_leaves {L : Type} (t : ctree L) : list L :=
+  match t with
+  | TLeaf l => [l]
+  | TAnd ts | TOr ts => flat_map tree_leaves ts
+  end.
